@@ -78,13 +78,32 @@ class SlotModel:
         self.values = None if values is None else np.array(values)
         self.comps = comps          # list of dicts for 'F'
         self.tol_scale = 0.0        # magnitude of the data the values derive from
+        self.abs_tol = 0.0          # absolute slack inherited from function-backed operands
+        self.max_span = float(self.times[-1] - self.times[0]) if len(self.times) > 1 else 0.0
 
     def clone(self):
         new = SlotModel(self.kind, self.times.copy(), self.vtype,
                         None if self.values is None else self.values.copy(),
                         None if self.comps is None else [dict(c) for c in self.comps])
         new.tol_scale = self.tol_scale
+        new.abs_tol = self.abs_tol
+        new.max_span = self.max_span
         return new
+
+    def f_tolerance(self):
+        """Tolerance of a function-backed slot (call after expected_values)."""
+        tol = 1e-11 * self.comp_mag + 1e-300
+        # conditioning of f(t - t0) when |t| is huge compared with the step: an
+        # argument error of a few ulp(|t|) is unavoidable
+        tmax = float(np.max(np.abs(self.times))) if len(self.times) else 0.0
+        tmax = max([tmax] + [abs(float(c["t0"])) for c in self.comps])
+        if len(self.times) > 1:
+            dts = np.abs(np.diff(np.asarray(self.times, dtype=float)))
+            lip = self.comp_lip / max(float(np.min(dts)), 1e-300)
+            tol += 64 * 2.3e-16 * tmax * lip
+        else:
+            tol += 1e-9 * self.comp_mag
+        return tol
 
     def expected_values(self):
         if self.kind == "S":
@@ -440,8 +459,10 @@ class C04Signals(Machine):
         if vt is None:
             return ValueError
         if ma.kind == "F" and mb.kind == "F":
-            return SlotModel("F", ma.times, vt, comps=[dict(c) for c in ma.comps] +
-                             [dict(c) for c in mb.comps])
+            new = SlotModel("F", ma.times, vt, comps=[dict(c) for c in ma.comps] +
+                            [dict(c) for c in mb.comps])
+            new.max_span = max(ma.max_span, mb.max_span)
+            return new
         if ma.kind == "E":
             r = mb.clone()
             r.vtype = vt
@@ -454,6 +475,9 @@ class C04Signals(Machine):
                         values=np.asarray(ma.expected_values(), dtype=float)
                         + np.asarray(mb.expected_values(), dtype=float))
         new.tol_scale = ma.tol_scale + mb.tol_scale
+        # a function-backed operand brings its own evaluation slack along
+        new.abs_tol = sum(m.f_tolerance() if m.kind == "F" else m.abs_tol for m in (ma, mb))
+        new.max_span = max(ma.max_span, mb.max_span)
         return new
 
     def _op_add(self, op):
@@ -528,7 +552,9 @@ class C04Signals(Machine):
         if st == "raised":
             raise Violation("C04:scale-wrongly-refused", "%s by %r raised %r" % (how, k, res))
         new = ma.clone()
-        new.tol_scale = ma.tol_scale * (abs(1.0 / k) if how in ("div", "idiv") else abs(k))
+        fac = abs(1.0 / k) if how in ("div", "idiv") else abs(k)
+        new.tol_scale = ma.tol_scale * fac
+        new.abs_tol = ma.abs_tol * fac
         if new.kind == "S":
             new.values = (np.asarray(ma.values) / k) if how in ("div", "idiv") \
                 else (np.asarray(ma.values) * k)
@@ -581,7 +607,7 @@ class C04Signals(Machine):
             d = np.diff(np.asarray(tpriv, dtype=float))
             if np.any(d <= 0):
                 raise Skip("function signals are only re-gridded onto increasing grids")
-            span = float(np.max(ma.times) - np.min(ma.times)) if len(ma.times) else 0.0
+            span = max(float(np.max(ma.times) - np.min(ma.times)) if len(ma.times) else 0.0, ma.max_span)
             if span / float(tpriv[1] - tpriv[0]) > 2e3:
                 # contained windows make pyrex evaluate the function over the
                 # whole old span on the new step: a cost problem, not a
@@ -599,6 +625,7 @@ class C04Signals(Machine):
             new = SlotModel("E", tpriv, ma.vtype)
         else:
             new = SlotModel("F", tpriv, ma.vtype, comps=[dict(c) for c in ma.comps])
+            new.max_span = max(new.max_span, ma.max_span)
         self.derived_seen = True
         self._store(op["dst"], res, new)
         return ["with_times", ma.kind, len(tpriv)]
@@ -679,19 +706,9 @@ class C04Signals(Machine):
             exp = np.asarray(m.expected_values(), dtype=float)
             got = np.asarray(values, dtype=float)
             if m.kind == "F":
-                tol = 1e-11 * m.comp_mag + 1e-300
-                # conditioning of f(t - t0) when |t| is huge compared with the
-                # step: an argument error of a few ulp(|t|) is unavoidable
-                tmax = float(np.max(np.abs(m.times))) if len(m.times) else 0.0
-                tmax = max([tmax] + [abs(float(c["t0"])) for c in m.comps])
-                if len(exp) > 1:
-                    dts = np.abs(np.diff(np.asarray(m.times, dtype=float)))
-                    lip = m.comp_lip / max(float(np.min(dts)), 1e-300)
-                    tol += 64 * 2.3e-16 * tmax * lip
-                else:
-                    tol += 1e-9 * m.comp_mag
+                tol = m.f_tolerance()
             else:
-                tol = 1e-12 * max(np.max(np.abs(exp)) if len(exp) else 0.0, m.tol_scale)
+                tol = 1e-12 * max(np.max(np.abs(exp)) if len(exp) else 0.0, m.tol_scale) + m.abs_tol
             bad = ~(np.abs(got - exp) <= tol)
             if np.any(bad):
                 k = int(np.argmax(bad))
